@@ -20,6 +20,10 @@ ASSUMPTIONS = ["frozen name tables = published tables of the pinned commit; entr
 def plan(tier, seed):
     per = 900 if tier == "quick" else 30000
     specs = [{"mode": "random", "n": per, "rseed": seed * 1000 + i, "registry": i % 4 != 3} for i in range(13)]
+    # BMC file-system layout (no pel_registry distribution; files under /usr/share/phosphor-logging/pels), once with
+    # all name files intact and once each with one creator's file damaged
+    for j, kind in enumerate(("ok", "damaged-O", "damaged-B")):
+        specs.append({"mode": "random", "n": per, "rseed": seed * 1000 + 700 + j, "registry": False, "bmc": kind})
     specs.append({"mode": "sweep_uh", "rseed": seed * 1000 + 800, "all_flags": tier != "quick"})
     specs.append({"mode": "sweep_ph", "rseed": seed * 1000 + 801, "reps": 1 if tier == "quick" else 20})
     specs.append({"mode": "sweep_lp", "rseed": seed * 1000 + 802, "reps": 1 if tier == "quick" else 10})
@@ -28,7 +32,7 @@ def plan(tier, seed):
 
 def minimums(tier):
     return {"PH.entries": 10000, "UH.entries": 10000, "EH.entries": 1500, "MT.entries": 1500, "LP.entries": 1500,
-            "field.LP.Target LP*": 1500, "field.UH.Action Flags": 10000}
+            "field.LP.Target LP*": 1500, "field.UH.Action Flags": 10000, "bmc.names_displayed": 40, "bmc.path_accesses": 6}
 
 
 KINDS = [("EH", 10), ("MT", 10), ("LP", 10), ("SS", 2), ("UD", 2), ("HEX", 2)]
@@ -41,9 +45,15 @@ def run(spec, ctx):
     u = pm.Uniq(spec["shard"] * 10_000_000)
     reg = harness.registry_model()
     ctx.see("registry", harness.registry_active())
+    ctx.see("layout", spec.get("bmc") or ("pel_registry" if harness.registry_active() else "none"))
 
     def one(pel):
-        fidelity.run_case(pel, ctx, "C02", reg=reg)
+        o = fidelity.run_case(pel, ctx, "C02", reg=reg)
+        if spec.get("bmc") and o is not None and o.doc:
+            shown = o.doc.get("Private Header", {}).get("Created by")
+            if pm.as_hex_or_none(shown) is None:
+                ctx.count("bmc.names_displayed")
+            ctx.counters["bmc.path_accesses"] = harness._bmc["opens"]
     if spec["mode"] == "random":
         for _ in range(spec["n"]):
             one(gen.gen_pel(rng, u, reg=reg, kinds=KINDS, nopt=rng.choice([1, 2, 3, 4, 6])))
